@@ -74,7 +74,9 @@ def run_property(pid: str, tier: str, seed: int, budget_s: float, workers: int) 
     ctx = mp.get_context("spawn")
     from jsim.worker import run_task
 
-    with ProcessPoolExecutor(max_workers=min(workers, max(1, len(tasks))), mp_context=ctx) as ex:
+    # one fresh interpreter per task: no process-global state (module caches, jit caches, registries) is
+    # shared between tasks, so a task's result cannot depend on which tasks ran before it in the same worker
+    with ProcessPoolExecutor(max_workers=min(workers, max(1, len(tasks))), mp_context=ctx, max_tasks_per_child=1) as ex:
         futs = {ex.submit(run_task, t): t for t in tasks}
         for fut in as_completed(futs):
             t = futs[fut]
@@ -121,7 +123,7 @@ def finish(pid: str, tier: str, seed: int, prop: Any, results: List[Dict[str, An
     states += sum(len(np.unique(a)) for a in by_cfg.values())
     runs = sum(r["runs"] for r in ok)
     steps = sum(r["steps"] for r in ok)
-    all_viol = [v for r in ok for v in r["violations"]]
+    all_viol = [v for r in ok for v in r["violations"]] + prop.post(ok, seed)
     known = load_known()
     unlisted, listed = [], []
     for v in all_viol:
